@@ -317,9 +317,12 @@ class Server:
                 if not self._pipeline_notfull.wait(timeout * 0.99):
                     raise ServerBacklogFull(len(pipeline), perf_counter() - t0)
 
-            self._input_buffer.put((uid, x))
+            # Record the request in the ledger *before* handing it to the workers:
+            # otherwise a fast worker's result can reach `_gather_output` before the
+            # ledger entry exists, in which case the result is dropped and the entry
+            # is stuck in the ledger forever.
             pipeline[uid] = fut
-            # See doc of counterpart methods in `AsyncServer`.
+            self._input_buffer.put((uid, x))
 
         fut.data['t1'] = perf_counter()
         return fut
@@ -580,8 +583,14 @@ class AsyncServer:
             #     change `pipeline.pop(uid)` in `_gather_output` to `pipeline.pop(uid, None)`;
             # (2) in `call`, protect the calll to `_enqueue` by an `asyncio.shield`.
 
-            self._input_buffer.put((uid, x))
+            #
+            # However, the workers run in other threads (or processes): if the entry goes into
+            # `_input_buffer` first, a fast worker's result can reach `_gather_output` before the
+            # entry is in `pipeline`; the result is then dropped and the entry is stuck in
+            # `pipeline` forever. There is no `await` between the next two statements, hence
+            # no cancellation can happen between them.
             pipeline[uid] = fut
+            self._input_buffer.put((uid, x))
 
         fut.data['t1'] = perf_counter()  # enqueing finished if `t1` != `t0`
         return fut
